@@ -2,6 +2,8 @@
 # usage: tools/sweep.sh <tier> <seed> [<seed> ...]   -- runs every check once per seed; prints one line per run; non-zero exits are listed at the end
 tier="$1"; shift
 cd "$(dirname "$0")/.."
+# under `vp run --with-repo` the snapshot of /repo is used, so that seeded changes applied to /repo meanwhile do not disturb the sweep
+[ -n "$VP_RUN_REPO" ] && export VERIF_REPO="$VP_RUN_REPO"
 bad=""
 for s in "$@"; do
   for c in C01 C02 C03 C04 C05 C06 C07 C08 C09 C10 C11 C12 C13 C14 C15 C16 C17 C18; do
